@@ -26,7 +26,7 @@ def ws_documents(chk, quick):
     recs, _ = D.generate(chk, 'twinargs', p, ['C02_Structure'])
     out += [from_atoms(r['i']) for r in recs]
     p = dict(common)
-    p.update({'Budget': 4 if quick else 5, 'Seps': ['', ' ', '\n', ' \n '], 'TextPool': ['x', ' '], 'MathTextPool': ['x'], 'EnvNames': ['e'], 'CmdNames': ['a', 'bb'],
+    p.update({'Budget': 3 if quick else 5, 'Seps': ['', ' ', '\n', ' \n '], 'TextPool': ['x', ' '], 'MathTextPool': ['x'], 'EnvNames': ['e'], 'CmdNames': ['a', 'bb'],
               'MathKinds': ['$'], 'ListNames': ['itemize'], 'MaxSib': 2, 'MaxArgs': 2, 'MaxDepth': 3})
     recs, _ = D.generate(chk, 'wsdocs', p, ['C02_Structure', 'C09_Conserves'])
     out += [from_atoms(r['i']) for r in recs]
